@@ -115,7 +115,7 @@ CHECKS["C03"] = dict(
 
 CHECKS["C14"] = dict(
     category="model_checking",
-    text="spec/Collective.tla steps through every (login message family, older protocol version) pair and checks on the definitions that every informative field of the older version has a place in the latest version (the design-level condition for Lower_N o Lift_N = id); the behaviours of spec/WowmWire.tla for every login message of protocol versions 2, 3, 5, 6, 7, 8 (all control paths, 4-8 value profiles; ~1,400 quick) are executed against the real crate: version N's own reader -> from_version_N -> to_version_N must give back the value and its bytes, and version_8's read_protocol / write_protocol must yield exactly the lifted value and the original bytes.",
+    text="spec/Collective.tla steps through every (login message family, older protocol version) pair and checks on the definitions that every informative field of the older version has a place in the latest version (the design-level condition for Lower_N o Lift_N = id); the behaviours of spec/WowmWire.tla for every login message of protocol versions 2, 3, 5, 6, 7, 8 (all control paths, 6 / 24 value profiles; ~5,000 quick) are executed against the real crate: version N's own reader -> from_version_N -> to_version_N must give back the value and its bytes, and version_8's read_protocol / write_protocol must yield exactly the lifted value and the original bytes.",
     design_ref="DESIGN.md section 5 C14",
     note="Trusted: the generated dispatch (tools/gen_dispatch.py, names from the front-end's object table), the wire model's canonical encodings, TLC. Sync API only (tokio / async-std variants of the protocol API share the conversions; transports are C06's subject). CMD_SURVEY_RESULT has no collective type.",
     technique="TLA+ structural embedding check with TLC plus spec->impl replay of every wire-model behaviour through lift / lower and the protocol-parameterised API",
@@ -131,7 +131,7 @@ CHECKS["C17"] = dict(
 
 CHECKS["C19"] = dict(
     category="exploration",
-    text="spec/Features.tla - cargo feature configurations as a state machine (Enable(f) closing under the Cargo.toml implications incl. implicit optional-dependency features and dep/feat forwarding into wow_world_base) - is model checked by TLC over the full powerset of all three crates (840 closed configurations) with the invariant GuardClosed (every item present under a configuration only names items present under it) on a text-level extraction of 50,759 cfg-guarded items and 62,831 resolved references (435 classes). TLC prints the configuration lists (quick: TLC-checked pairwise covering array + singles + all + default + documented command lines = 42; thorough: core powerset x auxiliary off/on = 526, base and login complete); each is compiled with cargo check --no-default-features --features F in a scratch copy of the current tree and rustc's verdict compared with the model's prediction; features named in the crate docs must be declared. Differential: the C01 quick behaviours are replayed against an all-features build and a generated sync+one-expansion build (vh2) and must get identical verdicts.",
+    text="spec/Features.tla - cargo feature configurations as a state machine (Enable(f) closing under the Cargo.toml implications incl. implicit optional-dependency features and dep/feat forwarding into wow_world_base) - is model checked by TLC over the full powerset of all three crates (840 closed configurations) with the invariant GuardClosed (every item present under a configuration only names items present under it) on a text-level extraction of 50,759 cfg-guarded items and 62,831 resolved references (435 classes). TLC prints the configuration lists (quick: TLC-checked pairwise covering array + TLC-checked strength-3 covering array over the core features of wow_world_messages (first-order Reed-Muller rows) + singles + all + default + documented command lines = ~55; thorough: core powerset x auxiliary off/on = 526, base and login complete); each is compiled with cargo check --no-default-features --features F in a scratch copy of the current tree and rustc's verdict compared with the model's prediction; features named in the crate docs must be declared. Differential: the C01 quick behaviours are replayed against an all-features build and a generated sync+one-expansion build (vh2) and must get identical verdicts.",
     design_ref="DESIGN.md section 5 C19, notes/C19.md",
     note="Whether a configuration builds is rustc's verdict, not the specification's (hence exploration). Trusted: tools/features_front.py (text-level, approximate: unqualified uses, method calls, macros, traits are not followed; misses are only caught by the configurations actually compiled), Cargo feature semantics as transcribed, the offline registry, library target only (cfg(test) off), supported set = every subset because pre-release.sh runs cargo hack --feature-powerset.",
     technique="TLA+ configuration machine model-checked with TLC (closure invariant over the full feature powerset); spec-emitted configurations replayed into cargo check; differential replay of spec-generated codec behaviours against two differently featured builds",
@@ -154,7 +154,7 @@ CHECKS["C18"] = dict(
 
 CHECKS["C07"] = dict(
     category="model_checking",
-    text="spec/WowmGrammar.tla: constructive specification of well-formed wowm programs (partial program as state; 16 actions adding definers, structs, scalars, constants, self.size, enum/flag fields with upcast, fixed/variable/endless arrays, if / else-if / else with ==, !=, &, ||, nested once, optional tail; every step guarded by the rule of lang-spec.md it transcribes; invariants NamesUnique, TailLast, IfsWellFormed, DefinersOk on every state). tlc -simulate (VERIF_SEED) yields 40 (quick) / 700 (thorough) distinct programs, selected to span the feature inventory; each is printed as wowm (printer/parser round trip against the independent front-end), embedded in place of an existing Vanilla message of a scratch copy, and taken through the REAL generator (must exit 0), WowmStatic (C16's rules: must break none), rustc (scratch wow_world_base / wow_world_messages with sync+tokio+async-std+vanilla must compile) and WowmWire (all canonical encodings; SizeAgrees, UniquelyDecodable) whose behaviours are replayed through the public opcode enums of the freshly built crates: accepted, exact consumption, byte-identical re-encode, size assertion. Failures are attributed to single programs (diagnostic text, bisection, generated file names) and reported with the program text.",
+    text="spec/WowmGrammar.tla: constructive specification of well-formed wowm programs (partial program as state; 16 actions adding definers, structs, scalars, constants, self.size, enum/flag fields with upcast, fixed/variable/endless arrays, if / else-if / else with ==, !=, &, ||, nested once, optional tail; every step guarded by the rule of lang-spec.md it transcribes; invariants NamesUnique, TailLast, IfsWellFormed, DefinersOk on every state). tlc -simulate (VERIF_SEED) yields 40 (quick) / 500 (thorough) distinct programs, selected to span the feature inventory; spec/WowmShapes.tla adds, exhaustively (breadth-first), every if / else-if / else statement whose arms are drawn from a menu of member lists of different extent (fixed small / fixed large / bounded variable / unbounded; 48 programs quick, 540 thorough, operators ==, !=, &) so that every ordering of arm extents occurs; each program is printed as wowm (printer/parser round trip against the independent front-end), embedded in place of an existing Vanilla message of a scratch copy, and taken through the REAL generator (must exit 0), WowmStatic (C16's rules: must break none), rustc (scratch wow_world_base / wow_world_messages with sync+tokio+async-std+vanilla must compile) and WowmWire (all canonical encodings; SizeAgrees, UniquelyDecodable) whose behaviours are replayed through the public opcode enums of the freshly built crates: accepted, exact consumption, byte-identical re-encode, size assertion; the sizes and reader guards the generator derived for the programs are judged by spec/MCSizes.tla (soundness clauses of C09). Failures are attributed to single programs (diagnostic text, bisection, generated file names) and reported with the program text.",
     design_ref="DESIGN.md section 5 C07, notes/C07.md",
     note="Trusted: tools/wowm_front.py, tools/lower.py, tools/wowm_print.py (round trip checked, reproduces all 1,907 corpus objects), WowmWire/WowmTypes, the derived harness vh7, TLC. Bounds: <= 3 definers, 2 structs, 10 message members, ifs nested once; world cmsg/smsg of 1.12 only (no login, msg, compressed, masks, UpdateMask, NamedGuid); self.size u16/u32; identifiers digit-free and workspace-unique (the Wireshark name-stem finding is probed separately); sampling, not exhaustive. Generator defects on shapes the corpus does not use are listed in known_findings.jsonl (keys c07-*) or repaired by fix: commits (DESIGN.md 10.3).",
     technique="TLA+ spec explored with TLC in simulation mode (invariants on every state), programs cross-checked by two independently written TLA+ specs (WowmStatic, WowmWire) and replayed into the real generator, rustc and the freshly generated codecs",
